@@ -146,6 +146,12 @@ def job_case(case, tier, seed):
     try:
         whole = run_sliced(G, ex, st.fork(), ctx, [n])
         base_exits = list(ex.exits)
+        if whole is None or base_exits:
+            lab = 'mode %d counter cell %d start cell %d ie %d' % (case['mode'], case['counter'], case['start'], case['ie'])
+            ck.prove('RunCompletes[n=%d %s]' % (n, lab), A, z3.Not(kit.exit_cond(type('X', (), {'exits': base_exits})())) if whole is not None else z3.BoolVal(False), vars=dict(vars_, counter_cell=case['counter'], start_cell=case['start'], mode=case['mode']),
+                     replay=replayer(case, [n]), sample='Run(%d) on the idle-loop program returns normally (no assertion abort inside the fast-forward)' % n)
+            if whole is None:
+                return ck.export()
         ow = observe(G, ex, whole, ctx)
     except (Abort, UnwindBound) as x:
         ck.inconclusive.append('case %r: %s' % (case, str(x)[:150]))
@@ -159,6 +165,9 @@ def job_case(case, tier, seed):
         try:
             ex.exits = []
             sl = run_sliced(G, ex, st.fork(), ctx, comp)
+            if sl is None:
+                ck.prove('RunCompletes[n=%d %s: %s]' % (n, label, '+'.join(map(str, comp))), A, z3.BoolVal(False), vars=dict(vars_, counter_cell=case['counter'], start_cell=case['start'], mode=case['mode']), replay=replayer(case, comp))
+                continue
             osl = observe(G, ex, sl, ctx)
         except (Abort, UnwindBound) as x:
             ck.inconclusive.append('case %r slices %r: %s' % (case, comp, str(x)[:150]))
@@ -247,6 +256,8 @@ def replayer(case, comp):
                             'timer0.counter': tw.fn('ti_timer_counter', ctypes.c_uint32, [ctypes.c_void_p])(t), 'icu.pending': tw.fn('ti_mmio_read', ctypes.c_uint16, [ctypes.c_void_p, ctypes.c_uint16])(t, 0x200)})
             return res
         o = native.in_child(body, timeout=240)
+        if o[0] == 'signal':
+            return True, {'native': 'the real library aborts (signal %d) on this input' % o[1]}
         if o[0] != 'ok':
             return None, {'native': o}
         return o[1][0] != o[1][1], {'Run(%d)' % n: o[1][0], 'slices %r' % (comp,): o[1][1]}
